@@ -271,6 +271,12 @@ func genE31(r *kit.Rand, tier kit.Tier) E31 {
 		nIn = 2
 	}
 
+	// many messages in reassembly at the same time
+	crowd := r.Chance(1, 6)
+	if crowd {
+		nIn = r.Range(12, 28)
+	}
+
 	t := uint64(0)
 	for i := 0; i < nOut; i++ {
 		o := OutMsg{Port: r.Intn(c.DevPorts), Bytes: byteSizes[r.Intn(len(byteSizes))], Class: classes[r.Intn(3)]}
@@ -300,7 +306,19 @@ func genE31(r *kit.Rand, tier kit.Tier) E31 {
 	}
 
 	// arrival interleaving: in order, interleaved across messages, or fully shuffled
-	switch r.Intn(3) {
+	mode := r.Intn(3)
+	if crowd {
+		mode = 1
+
+		for i := range c.In {
+			if c.In[i].Flits < 2 {
+				c.In[i].Flits = 2
+				c.Order = append(c.Order, FlitRef{Msg: i, Seq: 1})
+			}
+		}
+	}
+
+	switch mode {
 	case 1:
 		sort.SliceStable(c.Order, func(i, j int) bool { return c.Order[i].Seq < c.Order[j].Seq })
 	case 2:
